@@ -78,6 +78,9 @@ def select(rows, quick, seed):
             if full and allk and allk not in pick:
                 pick.append(allk)
         out += [per_subset[k] for k in pick]
+        # scalars outside the u32 range (where a valid proof can carry them): every single deviation and a few subsets
+        wide = [r for r in multis if r["pos"] == "wide" and r not in out]
+        out += rng.sample(wide, min(6, len(wide)))
     return out
 
 
@@ -213,7 +216,7 @@ MANIFEST = {
                          "guard sequences the code runs, and the 11 entry points that accept a template (PrivateBatchProver::new/"
                          "new_from_bytes/new_from_files/new_from_binaries_dir, generate_private_batch_circuit_binaries, "
                          "PublicBatchProver::new/new_from_bytes/new_from_files/new_from_binaries_dir, PublicBatchAggregator::new/"
-                         "with_limits) as programs ending in the use of the template. TLC checks on all 1450 cells: accepted => "
+                         "with_limits) as programs ending in the use of the template. TLC checks on all cells (1 450 + the out-of-range scalar class at PrivateBatchProver::new): accepted => "
                          "complete sentinel, rejected => never used, all-clear accepted; four spec mutants must be rejected. "
                          "Cells are replayed on the real entry points under catch_unwind with real proofs: every deviation as a "
                          "valid proof over stand-in child circuits at the two `new` constructors; at the entry points pinning "
